@@ -411,7 +411,56 @@ def r5_stream_termination(ctx):
     ctx.ob(f2.where, "every non-None chunk read by read_chunks is yielded", bad is None and u(ys[0].ast.value.value) == v, CFG.show(bad) if bad else "")
 
 
+def r6_cross_chunk_scan(ctx):
+    """Completeness scans that look across chunk borders carry state from one chunk to the next: every chunk must update it."""
+    ix = ctx.index
+    base = ix.cls("bionumpy.io.file_buffers", "FileBuffer")
+    n = 0
+    for c in ix.subclasses(base):
+        fi = c.methods.get("contains_complete_entry")
+        if fi is None:
+            continue
+        g = CFG(fi.node)
+        loops = [x for x in g.nodes if x.kind == "for" and u(x.ast.iter) == fi.params[1]]
+        pre = {}
+        for x in g.stmt_nodes(ast.Assign):
+            if isinstance(x.ast.targets[0], ast.Name):
+                pre.setdefault(x.ast.targets[0].id, []).append(x)
+        for loop in loops:
+            inside = lambda x: g.path([loop], [x]) is not None and g.path([x], [loop]) is not None
+            for name, nodes in pre.items():
+                ins = [x for x in nodes if inside(x)]
+                outs = [x for x in nodes if not inside(x)]
+                if not ins or not outs or name == u(loop.ast.target):
+                    continue
+                # `name` is state carried across iterations
+                n += 1
+                first = [g.nodes[b] for b, l in g.succ[loop.id] if l == "iter"]
+                bad = g.path(first, [loop], blocked=lambda x: x in ins, start_after=False)
+                ctx.ob(fi.where, f"{c.name}.contains_complete_entry: the state `{name}` carried from chunk to chunk is updated for every chunk (no chunk is skipped)",
+                       bad is None, CFG.show(bad) if bad else "", key=f"C01-R6|{c.name}|{name}")
+                uses = [x for x in g.nodes if x.kind == "test" and name in {y.id for y in ast.walk(x.ast) if isinstance(y, ast.Name)} and inside(x)]
+                for t in uses:
+                    skip = g.path(first, ins, blocked=lambda x: x.id == t.id or (x.kind == "stmt" and isinstance(x.ast, ast.Return)), start_after=False)
+                    ctx.ob(fi.where, f"{c.name}.contains_complete_entry: the cross-chunk test on `{name}` is evaluated for every chunk before the state is updated",
+                           skip is None, CFG.show(skip) if skip else "", key=f"C01-R6|{c.name}|{name}|test")
+    ctx.floor("cross-chunk completeness scans with carried state", n, 1)
+    # base implementation counts newlines over all chunks
+    fb = ix.func("bionumpy.io.file_buffers", "FileBuffer.contains_complete_entry")
+    env = local_env(fb.node)
+    e = [x for x in body_walk(fb.node) if isinstance(x, ast.Return)]
+    ok = len(e) == 1 and sym.canon(e[0].value, env) == sym.canon(sym.parse_expr(
+        f"sum(np.count_nonzero(EncodedArray(chunk, BaseEncoding) == NEWLINE) for chunk in {fb.params[1]}) >= cls.n_lines_per_entry"))
+    ctx.ob(fb.where, "default completeness test: the chunks together hold at least one entry's worth of line ends", ok, u(e[0].value) if e else "", key="C01-R6|base")
+    ol = ix.func("bionumpy.io.one_line_buffer", "OneLineBuffer.contains_complete_entry")
+    txt = u(ol.node)
+    ok = "return super().contains_complete_entry(%s)" % ol.params[1] in txt and f"if len({ol.params[1]}) == 1:" in txt and \
+        f"return (True, cls.from_raw_buffer({ol.params[1]}[0]))" in txt and "except IncompleteEntryException:\n            return False" in txt
+    ctx.ob(ol.where, "line-group formats: a single chunk is complete iff it can be cut; several chunks fall back to the line count", ok, "", key="C01-R6|oneline")
+
+
 RULES = [
+    ("C01-R6", r6_cross_chunk_scan),
     ("C01-R1", r1_pending_bytes),
     ("C01-R2", r2_carry_over),
     ("C01-R3", r3_eof_marker),
